@@ -3,7 +3,7 @@
 cd /verif
 for d in seeded/*/; do
   n=$(basename $d); id=${n%%-*}
-  git -C /repo apply --check $d/patch.diff 2>/dev/null || { echo "$(date +%H:%M:%S) SKIP (does not apply to the repaired tree): $n"; continue; }
+  git -C /repo apply --check /verif/$d/patch.diff 2>/dev/null || { echo "$(date +%H:%M:%S) SKIP (does not apply to the repaired tree): $n"; continue; }
   r=$(tools/seedtest.sh $n $id 2>&1 | tail -1)
   echo "$(date +%H:%M:%S) $r"
 done
